@@ -399,3 +399,8 @@ def run(ck):
             c02_5(ck, prog)
         finally:
             ck.rule = save
+        from rules.C03 import c03_6
+        lib.shared_rule(ck, prog, 'C12.8', 'stripping unknown fields covers every code above the last known one: '
+                        'unsigned field code, every comparison with DBUS_HEADER_FIELD_LAST on the right side of the '
+                        'boundary (shared with C03.6)', 'TS', 'unknown fields with codes in part of 11..255 survive '
+                        'the strip and the following edits', 3, c03_6)
